@@ -635,4 +635,57 @@ PropDeref(c, e) ==
        /\ \A i \in FieldIdx(c, v) :
              e.after[2][i] = IF i = DMutField(c, v) THEN <<"c", 9, 5, 0>> ELSE <<"a", i, e.a.f[i], 0>>
 
+
+\* ======================================================================
+\* Into (C10)
+\* ======================================================================
+\* c.opts.targets: the requested target types, a subset of {"A", "B"} written as
+\* a sequence.  Field type classes: "A", "B" (the target types themselves) and
+\* "P" (converts into both through From).  f.into: the field's markers, a
+\* sequence of [t |-> target, m |-> has method].
+IntoMarks(c, v, i, t) == { k \in DOMAIN c.variants[v].fields[i].into : c.variants[v].fields[i].into[k].t = t }
+IntoMarked(c, v, t) == { i \in FieldIdx(c, v) : IntoMarks(c, v, i, t) # {} }
+IntoSameType(c, v, t) == { i \in FieldIdx(c, v) : c.variants[v].fields[i].ty = t }
+MarkHasMethod(c, v, i, t) ==
+  \E k \in IntoMarks(c, v, i, t) : c.variants[v].fields[i].into[k].m
+
+\* designated field for target t in variant v (0 = none / ambiguous)
+IntoField(c, v, t) ==
+  IF NFields(c, v) = 1 THEN 1
+  ELSE IF Cardinality(IntoMarked(c, v, t)) = 1 THEN CHOOSE i \in IntoMarked(c, v, t) : TRUE
+  ELSE IF IntoMarked(c, v, t) # {} THEN 0
+  ELSE IF Cardinality(IntoSameType(c, v, t)) = 1 THEN CHOOSE i \in IntoSameType(c, v, t) : TRUE
+  ELSE 0
+
+\* how the designated field reaches the target
+IntoMode(c, v, t) ==
+  LET i == IntoField(c, v, t) IN
+    IF MarkHasMethod(c, v, i, t) THEN "method"
+    ELSE IF c.variants[v].fields[i].ty = t THEN "identity"
+    ELSE "convert"
+
+IntoWellDesignated(c) ==
+  /\ NVariants(c) >= 1
+  /\ Len(c.opts.targets) >= 1
+  /\ \A v \in 1..NVariants(c) :
+       /\ NFields(c, v) >= 1
+       /\ \A k \in DOMAIN c.opts.targets :
+            LET t == c.opts.targets[k] IN
+              /\ IntoField(c, v, t) # 0
+              /\ IntoMode(c, v, t) = "convert" => c.variants[v].fields[IntoField(c, v, t)].ty = "P"
+       \* markers only for requested targets, each target at most once per field
+       /\ \A i \in FieldIdx(c, v) :
+            /\ \A k \in DOMAIN c.variants[v].fields[i].into :
+                  c.variants[v].fields[i].into[k].t \in SeqToSet(c.opts.targets)
+            /\ \A t \in {"A", "B"} : Cardinality(IntoMarks(c, v, i, t)) <= 1
+
+GenOfMode(m) == IF m = "method" THEN GMethod ELSE IF m = "identity" THEN GOrig ELSE GFrom
+
+\* e: x.into() for target e.k on value e.a; res = provenance of the returned
+\* value <<origin side, origin field, value, how produced>>
+PropInto(c, e) ==
+  LET v == e.a.v
+      i == IntoField(c, v, e.k)
+  IN e.res = <<"a", i, e.a.f[i], GenOfMode(IntoMode(c, v, e.k))>>
+
 =============================================================================
